@@ -53,9 +53,10 @@ var (
 )
 
 func filterDependencies(n *component_definition.Property, metas []*component_definition.Meta) ([]*component_definition.Meta, error) {
-	//remove nil meta
+	//remove nil meta and the holder itself: a point is never wired to its own holder,
+	//so the holder must not compete with the real candidates either
 	result := fas.Filter(metas, func(m *component_definition.Meta) bool {
-		return m != nil
+		return m != nil && !n.Holder.Meta.IsSelf(m)
 	})
 	if len(result) == 0 {
 		return nil, errors.Errorf("inject '%s' not found available components", n)
